@@ -5,8 +5,7 @@ Driver ops for C19 under -U (`c19.ml…`); `Driver/C19.lean` delegates unknown `
   c19.mlcut  LT HAYHEX RE                                   -> length of the haystack `replace_all` shows the matcher
   c19.mlprint LT HAYHEX RS RE ABSOFF LN|~ TMPLHEX (names (HEX IDX)…) (table CAPS…)
         CAPS = ~ | (caps G…)  G = ~ | (S E)      answers of captures_at(cut haystack, pos) for pos = 0, 1, …
-     -> panic                                                (replace_all aborts: a kept match ends beyond the block)
-      | out=HEX dst=HEX spans=S:E …                          (bytes written for the block; replacement buffer; offsets)
+     -> out=HEX dst=HEX spans=S:E …                          (bytes written for the block; replacement buffer; offsets)
 -/
 namespace RgVerif.Driver.C19Multi
 open RgVerif RgVerif.Matcher RgVerif.Interp RgVerif.Replace RgVerif.Printer RgVerif.ReplaceMulti
@@ -53,9 +52,9 @@ def handle (cmd : String) (args : List Sx) : String :=
       let tabA := tab.toArray
       let sc : SCfg := { lt, multiLine := true }
       let capsAtOf : Bytes → Nat → Option Caps := fun _ pos => (tabA[pos]?).join
-      match replaceAllMulti sc capsAtOf names hay rs re t, printReplacedBlock sc {} capsAtOf names hay rs re off ln t with
-      | some st, some out => s!"out={toHex out} dst={toHex st.dst} spans={showSpans st.spans}"
-      | _, _ => "panic"
+      let st := replaceAllMulti sc capsAtOf names hay rs re t
+      let out := printReplacedBlock sc {} capsAtOf names hay rs re off ln t
+      s!"out={toHex out} dst={toHex st.dst} spans={showSpans st.spans}"
     | _, _, _, _, _, _, _, _, _ => "bad-op"
   | _, _ => "bad-op"
 
